@@ -18,7 +18,7 @@ Value model (kept where equality is unambiguous):
 
   leaf type  wire                         decoded value   EXPECTED-VALUE that equals it
   u8 / u16   1 / 2 bytes big endian       int             canonical decimal ("34")
-  str        2 bytes ISO-8859-1           str             the same string, case-sensitive
+  str        2 bytes ISO-8859-1           str             the same string, case-sensitive, blanks significant
   bytes      2 bytes                      bytes           its hex digits, either case ("12AB", "12ab")
   f32        IEEE-754 single, big endian  float           a decimal numeral of the same number ("1.5", "1.50")
   dtc        2 bytes big endian, DTC-DOP  trouble code    "0x" + hex digits of the code, either case
@@ -58,11 +58,11 @@ FIELD_NAMES = ["items", "arr", "lst", "tail"]
 VALUES = {
     "u8": [5, 34, 200, 0],
     "u16": [5, 34, 4660, 0],
-    "str": ["AB", "CD", "ab"],
+    "str": ["AB", "CD", "ab", "A ", " B"],
     "bytes": [b"\x12\xab", b"\x00\xff", b"\x34\x00"],
     "f32": [0.5, 1.5, -2.0, 0.0],
     "dtc": [0x1234, 0xABCD, 0x10],
-    "lstr": ["", "AB", "xyz"],
+    "lstr": ["", "AB", "xyz", "A B", "AB ", " "],
     "lbytes": [b"", b"\x12\xab", b"\x00"],
 }
 # expected values (XML text) per leaf type; every entry either denotes exactly one
@@ -70,11 +70,11 @@ VALUES = {
 EXPECTED = {
     "u8": ["5", "34", "200", "0", "7", "ZZ"],
     "u16": ["5", "34", "4660", "0", "7", "ZZ"],
-    "str": ["AB", "CD", "ab", "EF", "ZZ"],
+    "str": ["AB", "CD", "ab", "A ", " B", "A", "B ", "EF", "ZZ"],
     "bytes": ["12AB", "12ab", "00FF", "00ff", "3400", "ABCD", "ZZ"],
     "f32": ["0.5", "1.5", "-2.0", "-2", "1.50", "0.0", "0", "0.75"],
     "dtc": ["0x1234", "0xABCD", "0xabcd", "0x10", "0X1234", "0x77", "ZZ"],
-    "lstr": ["", "AB", "xyz", "ZZ"],
+    "lstr": ["", "AB", "xyz", "A B", "AB ", " ", " AB", "ZZ"],
     "lbytes": ["", "12AB", "12ab", "00", "ZZ"],
 }
 DTC_TABLE = {0x1234: "dA", 0xABCD: "dB", 0x10: "dC"}
@@ -325,7 +325,8 @@ def leaf_paths(nodes, prefix=()):
     return out
 
 
-def path_matches(nodes, values, chunks, exp: str, first_item: bool = False, falsy_absent: bool = False) -> bool:
+def path_matches(nodes, values, chunks, exp: str, first_item: bool = False, falsy_absent: bool = False,
+                 strip_expected: bool = False) -> bool:
     """does the value at the short-name path equal exp (any item for fields)?
 
     first_item=True is a deliberately different semantics (only the first item of a
@@ -347,13 +348,15 @@ def path_matches(nodes, values, chunks, exp: str, first_item: bool = False, fals
             raise ModelError("path descends into a simple parameter")
         if falsy_absent and not values[node["n"]]:
             return False                   # deliberately wrong semantics, see ref_match(alt=...)
+        if strip_expected:
+            exp = exp.strip()              # deliberately wrong semantics
         return value_equals(t, exp, values[node["n"]])
     if len(chunks) == 1:
         raise ModelError("path ends at a complex parameter")
     if t == "struct":
-        return path_matches(node["ps"], values[node["n"]], chunks[1:], exp, first_item, falsy_absent)
+        return path_matches(node["ps"], values[node["n"]], chunks[1:], exp, first_item, falsy_absent, strip_expected)
     items = values[node["n"]][:1] if first_item else values[node["n"]]
-    return any(path_matches(node["ps"], it, chunks[1:], exp, first_item, falsy_absent) for it in items)
+    return any(path_matches(node["ps"], it, chunks[1:], exp, first_item, falsy_absent, strip_expected) for it in items)
 
 
 # ---------------------------------------------------------------------------
@@ -439,7 +442,8 @@ def param_matches(cfg, variant, mp, ecu, lenient=False, alt=None):
         if st == "amb":
             amb = True
         elif st == "ok" and path_matches(nodes, vals, chunks, mp["exp"], first_item=(alt == "first_item"),
-                                          falsy_absent=(alt == "falsy_absent")):
+                                          falsy_absent=(alt == "falsy_absent"),
+                                          strip_expected=(alt == "strip_expected")):
             hit = True
     if amb:
         return "amb"
@@ -464,7 +468,7 @@ def ref_match(cfg, order, ecu, lenient=False, alt=None):
     outcome of the property is a function of the configuration and the ECU only.
 
     `alt` selects a deliberately WRONG semantics (first_item, any_param, last_match,
-    first_pattern, pos_only, falsy_absent); the check compares it with the real one only to classify
+    first_pattern, pos_only, falsy_absent, strip_expected); the check compares it with the real one only to classify
     cases in which the corresponding aspect of the property is decisive."""
     amb = False
     match = None
